@@ -394,6 +394,51 @@ func raceChannel(ov *raceOverlap, scripts [][]int) {
 	_ = ch.Close()
 	close(stop)
 	fw.Wait()
+	if len(scripts) > 0 && len(scripts[0]) > 0 && scripts[0][0]%2 == 0 {
+		raceChannelCancelLane(30, scripts[0][0])
+	}
+}
+
+// raceChannelCancelLane: many short-lived Channels over one source, each closed by cancelling the context it was built
+// on at a sweeping offset while another goroutine is in the middle of Get/Commit, followed at once by Buffer().
+func raceChannelCancelLane(rounds, off int) {
+	src := make(chan *racePayload, 64)
+	var dummy atomic.Int64
+	for r := 0; r < rounds; r++ {
+		for len(src) < 32 {
+			src <- raceNewPayload(r)
+		}
+		ctx, cancel := context.WithCancel(context.Background())
+		ch, err := bigbuff.NewChannel(ctx, 20*time.Microsecond, src)
+		if err != nil {
+			panic(err)
+		}
+		var wg sync.WaitGroup
+		wg.Add(1)
+		go func() {
+			defer wg.Done()
+			for i := 0; ; i++ {
+				v, err := ch.Get(context.Background())
+				if err != nil {
+					return
+				}
+				raceReadPayload(v)
+				if i%8 == 7 {
+					_ = ch.Commit()
+				}
+			}
+		}()
+		for i := (off + r*7) % 300; i > 0; i-- {
+			_ = dummy.Load()
+		}
+		cancel()
+		for _, v := range ch.Buffer() {
+			raceReadPayload(v)
+		}
+		wg.Wait()
+		_ = ch.Close()
+		<-ch.Done()
+	}
 }
 
 // ---- Exclusive: a plain per-key counter is touched by every work function (mutual exclusion => no race)
